@@ -498,7 +498,38 @@ Inductive bfn :=
 | BSetRef (k : str)(* mapping[k] = existing object (an Attr / list / FeatureList is stored as it is)   meta.py:49-54 *)
 | BSetItem (i : Z) (* basket[i] = seq : the basket stores BioSeq(seq), a NEW sequence object whose re-wrapped metadata shares
                       meta.fts and nested metadata with the operand                                    seq.py:876-882, 221-243 *)
+| BBasketSetFts    (* basket.fts = fts : the features are grouped by meta.seqid; every sequence whose id has a group gets a NEW
+                      FeatureList holding those feature OBJECTS (first sequence with that id wins)        seq.py:751-760, cane.py:28-45 *)
 | BIs.             (* a is b *)
+
+(* getattr(ft.meta, 'seqid', None) as a dict key: a str, or None (missing / None); anything else is outside the modelled domain *)
+Definition seqid_of (mc : ocell) : option (option str) :=
+  match aget (bs "seqid"%bs) (ofs mc) with
+  | None | Some HNull => Some None
+  | Some (HStr s) => Some (Some s)
+  | _ => None
+  end.
+Definition has_id (sid : str) (p : hval * option str) : bool := match snd p with Some x => str_eqb x sid | None => false end.
+Fixpoint assign_fts (seqs : list hval) (pool : list (hval * option str)) (k : cmd) : cmd :=
+  match seqs with
+  | [] => k
+  | sv :: r =>
+      rd sv (fun _ sc =>
+        match ocls sc, aget kmeta (ofs sc) with
+        | KSeq, Some m =>
+            rd m (fun ml mc =>
+              match aget kid (ofs mc) with
+              | Some (HStr sid) =>
+                  match filter (has_id sid) pool with
+                  | [] => assign_fts r pool k
+                  | mine => Alloc (OC KFts [] (map fst mine)) (fun f =>
+                              Write ml (set_slot mc kfts (HRef f)) (assign_fts r (filter (fun p => negb (has_id sid p)) pool) k))
+                  end
+              | _ => Fail EOut
+              end)
+        | _, _ => Fail EOut
+        end)
+  end.
 
 Definition bin_cmd (f : bfn) (a b : hval) : cmd :=
   match f with
@@ -519,6 +550,22 @@ Definition bin_cmd (f : bfn) (a b : hval) : cmd :=
               if negb (amem kid (ofs mc)) && negb (match oes c2 with [] => true | _ => false end) then Fail EOut
               else Write ml (set_slot mc kfts (HRef f)) (Ret HNull)))
         | _, _, _ => Fail EOut
+        end))
+  | BBasketSetFts =>
+      rd a (fun _ c => rd b (fun _ c2 =>
+        match ocls c, ocls c2 with
+        | KBasket, KFts =>
+            read_all (oes c2) [] (fun fcs =>
+              match mapM (fun vc : hval * ocell => match ocls (snd vc) with KFeat => aget kmeta (ofs (snd vc)) | _ => None end) fcs with
+              | Some ms =>
+                  read_all ms [] (fun mcs =>
+                    match mapM (fun vc : hval * ocell => seqid_of (snd vc)) mcs with
+                    | Some ids => assign_fts (oes c) (combine (oes c2) ids) (Ret HNull)
+                    | None => Fail EOut
+                    end)
+              | None => Fail EOut
+              end)
+        | _, _ => Fail EOut
         end))
   | BSetItem i =>
       rd a (fun l c => rd b (fun _ c2 =>
